@@ -4,7 +4,7 @@
    recursive_subclasses, let + evaluate incl. live row-by-row evaluations), Spec: Onto/RegistrySpec.v. *)
 From Coq Require Import List Arith Bool PeanoNat Permutation.
 From Krrood Require Import Onto.RegistrySpec Onto.Registry Onto.RegistryInv Onto.RegistryProofs Onto.RegistryQuery
-  Onto.RegistryRel Onto.RegistryLive Onto.Lifetime Onto.RegistryWitness Onto.RegistryGen Onto.RegistryRefine.
+  Onto.RegistryRel Onto.RegistryLive Onto.RegistryLiveInv Onto.Lifetime Onto.RegistryWitness Onto.RegistryGen Onto.RegistryRefine.
 Import ListNotations.
 
 (* the registry invariant (the three indexes and the graph describe the same wrappers; entries under the address of
@@ -34,12 +34,23 @@ Theorem C13_query : forall children fuel h q T,
             Permutation l (map Some (spec_query children fuel (live (fst (run children fuel init h))) T)).
 Proof. exact query_correct. Qed.
 
-(* a row of an evaluation consumed row by row, when it is an instance: it exists now and was not handed out before *)
-Theorem C13_row : forall children fuel s n y o e,
+(* a row of an evaluation consumed row by row: always an instance, which exists now and was not handed out before *)
+Theorem C13_row : forall children fuel s n y v e,
   nth_error (evals s) n = Some (Some e) ->
-  snd (step children fuel s (NextV n y)) = OInst [Some o] ->
-  mem_obj o (live s) = true /\ (e_started e = true -> ~ In (Some o) (e_seen e)).
+  snd (step children fuel s (NextV n y)) = OInst [v] ->
+  exists o, v = Some o /\ mem_obj o (live s) = true /\ (e_started e = true -> ~ In (Some o) (e_seen e)).
 Proof. exact next_row_sound. Qed.
+
+(* ... and over histories: after any admissible history without graph re-creation -- however the evaluation was interleaved
+   with creation, dropping, sweeping, assertions and other evaluations -- the row a live evaluation hands out next is an
+   existing instance of its variable's type or of a subclass, not handed out before (the Spec's condition for a row) *)
+Theorem C13_live_row : forall children fuel h n y v e,
+  adm_run children fuel init h = true -> no_clear h = true ->
+  nth_error (evals (fst (run children fuel init h))) n = Some (Some e) ->
+  snd (step children fuel (fst (run children fuel init h)) (NextV n y)) = OInst [v] ->
+  exists o, v = Some o /\ In o (spec_query children fuel (live (fst (run children fuel init h))) (e_T e)) /\
+            (e_started e = true -> ~ In (Some o) (e_seen e)).
+Proof. exact live_row_correct. Qed.
 
 (* "existing" = "referenced by the program", after any history, whenever no live iterator holds a row *)
 Theorem C13_existing_is_referenced : forall children fuel h o,
@@ -61,12 +72,6 @@ Theorem C13_refuted_clear :
               spec_query wch wfuel (live (fst (run wch wfuel init h))) T = [0].
 Proof. exact refuted_clear. Qed.
 
-Theorem C13_refuted_live_death :
-  exists h n, adm_run wch wfuel init h = true /\
-              snd (step wch wfuel (fst (run wch wfuel init h)) (NextV n (Some None))) = OInst [None] /\
-              snd (spec_step wch wfuel (fst (spec_run wch wfuel a_init h)) (NextV n (Some None))) = OErr.
-Proof. exact refuted_live_death. Qed.
-
 (* tie to the source: the definitions regenerated from symbol_graph.py / utils.py / predicate.py / entity.py /
    hashed_data.py / symbolic.py / singleton.py on this run (Gen/Registry.v) are the model these theorems are about *)
 Theorem C13_model_is_source : GenIsModel.
@@ -85,8 +90,8 @@ Print Assumptions C13_subclasses.
 Print Assumptions C13_subclasses_unbounded.
 Print Assumptions C13_query.
 Print Assumptions C13_row.
+Print Assumptions C13_live_row.
 Print Assumptions C13_existing_is_referenced.
 Print Assumptions C13_model_is_spec_on_F.
 Print Assumptions C13_refuted_clear.
-Print Assumptions C13_refuted_live_death.
 Print Assumptions C13_model_is_source.
